@@ -158,9 +158,11 @@ pub fn run_one_path(rtm: &mut Option<Rt>, f: fn() -> rt::R, p: Pending) -> (Outc
                 let short = file.rsplit("/src/").next().unwrap_or(&file).to_string();
                 let krate = match file.find("/.cargo/registry/src/") {
                     Some(i) => file[i + 21..].split('/').nth(1).unwrap_or("dependency").to_string(),
-                    None => if file.starts_with("/rustc/") || file.contains("/rustlib/") { "std".to_string() } else { "bc-envelope".to_string() },
+                    None => if file.starts_with("/rustc/") || file.contains("/rustlib/") { "std".to_string() } else if file.starts_with("shim/") || file.contains("/shim/src/") { "bc-components (shim)".to_string() } else { "bc-envelope".to_string() },
                 };
-                (Outcome::Viol { site: format!("panic in {} [{}:{}]", cur_op(), krate, short), msg: format!("panicked at {}: {}", loc, msg) }, None)
+                // role key: operation + source file below src/ (crate paths differ between the patched and the stock build)
+                let where_ = if krate == "bc-envelope" { format!("bc-envelope:{}", short) } else { short.clone() };
+                (Outcome::Viol { site: format!("panic in {} [{}]", cur_op(), where_), msg: format!("panicked at {} ({}): {}", loc, krate, msg) }, None)
             }
         }
     }
